@@ -188,6 +188,7 @@ type txnPeer struct {
 	open    *[]txnOpen
 	ev      *[]txnEv
 	evMu    *sync.Mutex
+	edgeRand *rand.Rand
 }
 
 type seenInfo struct {
@@ -292,6 +293,12 @@ func (tp *txnPeer) loop() {
 				time.Sleep(txnT3 + 90*time.Millisecond)
 				tp.reply(f, id)
 			}(f)
+		case "edge": // the reply arrives as close to the T3 expiry as the peer can manage
+			d := txnT3 - time.Duration(1500-tp.edgeRand.Intn(3000))*time.Microsecond - time.Since(f.At)
+			go func(f peerkit.RxFrame) {
+				time.Sleep(d)
+				tp.reply(f, id)
+			}(f)
 		case "none", "cancel":
 		case "dup":
 			tp.reply(f, id)
@@ -370,7 +377,8 @@ func runTxnScenario(sc txnScenario, r *rand.Rand) *txnLine {
 			return nil, fmt.Errorf("generation %d could not be selected", gen)
 		}
 		tp := &txnPeer{p: p, gen: gen, scripts: map[string]string{}, ids: map[string]int{}, tx: &tx, rx: &rx, seen: map[string]seenInfo{},
-			stop: make(chan struct{}), done: make(chan struct{}), sel: true, t0: scenarioStart, open: &opens, ev: &evs, evMu: &evMu}
+			stop: make(chan struct{}), done: make(chan struct{}), sel: true, t0: scenarioStart, open: &opens, ev: &evs, evMu: &evMu,
+			edgeRand: rand.New(rand.NewSource(int64(sc.id)*7 + int64(gen)))}
 		return tp, nil
 	}
 	tp, err := connect(1)
@@ -855,6 +863,8 @@ func runTxn(args []string) int {
 		for j := 0; j < ns; j++ {
 			s := txnScripts[r.Intn(len(txnScripts))]
 			switch kind {
+			case "edge":
+				s = "edge"
 			case "cancel":
 				if j%2 == 0 {
 					s = "cancel"
